@@ -36,6 +36,8 @@ pub(crate) struct FakeNode {
     /// while "refused": a socket bound to the port but not listening, so that connects are refused AND nobody else
     /// (another shard's node, an ephemeral source port) can take the port in the meantime
     holder: Arc<Mutex<Option<PortHolder>>>,
+    /// the lock file that reserves this node's port among all concurrently running harness processes
+    port_lock: std::path::PathBuf,
 }
 
 #[repr(C)]
@@ -75,9 +77,43 @@ fn read_frame(s: &mut TcpStream) -> Option<(u64, Vec<u8>)> {
 }
 
 impl FakeNode {
+    /// A scripted node needs a port that is its own for its whole life, also while nothing listens on it ("refused").
+    /// An ephemeral port (bind to 0) is not: while the node only HOLDS the port (bound, not listening, SO_REUSEADDR),
+    /// the kernel may hand the same port to any other socket that binds to 0 - another engine's scripted server, in a
+    /// check running next to this one - and connects that must be refused are then answered by a stranger.  So the
+    /// ports come from below the ephemeral range (20000..32000), and a lock file per port keeps concurrently running
+    /// harness processes apart (a lock whose owner process is gone is taken over).
+    fn reserve_port() -> (TcpListener, u16, std::path::PathBuf) {
+        use std::io::Write as _;
+        static NEXT: AtomicU64 = AtomicU64::new(0);
+        let dir = std::env::temp_dir().join("vh-fake-node-ports");
+        let _ = std::fs::create_dir_all(&dir);
+        let pid = std::process::id() as u64;
+        for attempt in 0..20_000u64 {
+            let k = NEXT.fetch_add(1, Ordering::SeqCst);
+            let port = 20000 + ((pid.wrapping_mul(7919) + k * 13 + attempt) % 12000) as u16;
+            let lock = dir.join(format!("{port}.lock"));
+            match std::fs::OpenOptions::new().write(true).create_new(true).open(&lock) {
+                Ok(mut f) => { let _ = write!(f, "{pid}"); }
+                Err(_) => {
+                    // taken: by a live process (try another port) or by one that is gone (take it over)
+                    let owner = std::fs::read_to_string(&lock).ok().and_then(|t| t.trim().parse::<u64>().ok());
+                    match owner {
+                        Some(o) if o != pid && !std::path::Path::new(&format!("/proc/{o}")).exists() => { let _ = std::fs::remove_file(&lock); }
+                        _ => {}
+                    }
+                    continue;
+                }
+            }
+            match TcpListener::bind(("127.0.0.1", port)) {
+                Ok(l) => return (l, port, lock),
+                Err(_) => { let _ = std::fs::remove_file(&lock); }
+            }
+        }
+        panic!("no free port for a scripted node");
+    }
     pub(crate) fn start() -> Arc<FakeNode> {
-        let l = TcpListener::bind("127.0.0.1:0").unwrap();
-        let port = l.local_addr().unwrap().port();
+        let (l, port, port_lock) = Self::reserve_port();
         l.set_nonblocking(true).unwrap();
         let node = Arc::new(FakeNode {
             port,
@@ -89,6 +125,7 @@ impl FakeNode {
             listener: Arc::new(Mutex::new(Some(l))),
             app_code: Arc::new(AtomicU64::new(ErrorCode::ApplicationErrorBase as u64)),
             holder: Arc::new(Mutex::new(None)),
+            port_lock,
         });
         let n = node.clone();
         std::thread::spawn(move || {
@@ -207,6 +244,7 @@ impl FakeNode {
         for c in self.conns.lock().unwrap().drain(..) {
             let _ = c.shutdown(Shutdown::Both);
         }
+        let _ = std::fs::remove_file(&self.port_lock);
     }
 }
 
